@@ -1146,24 +1146,28 @@ func first(a, _ []byte) []byte { return a }
 //@     ghost q0 = len(q)
 //@     invariant stacksOK(q, depths) && 0 - 1 <= i && i < n4.childrenLen
 //@     invariant[count] len(q) == q0 + (n4.childrenLen - 1 - i)
+//@     invariant[child_depth] forall(j, 0, 4, implies(j < len(depths) - q0, depths[q0 + j] == depth + as(node, n.pointer).prefixLen + 1))
 //@     invariant[order] forall(j, 0, 4, implies(j < n4.childrenLen - 1 - i, q[q0 + j].pointer == n4.children[n4.childrenLen - 1 - j].pointer && q[q0 + j].tag == n4.children[n4.childrenLen - 1 - j].tag))
 //@     exit_ensures[every_child_pushed] len(q) == q0 + n4.childrenLen
 //@   loop 3 (i)
 //@     ghost q0 = len(q)
 //@     invariant stacksOK(q, depths) && 0 - 1 <= i && i < n16.childrenLen
 //@     invariant[count] len(q) == q0 + (n16.childrenLen - 1 - i)
+//@     invariant[child_depth] forall(j, 0, 16, implies(j < len(depths) - q0, depths[q0 + j] == depth + as(node, n.pointer).prefixLen + 1))
 //@     invariant[order] forall(j, 0, 16, implies(j < n16.childrenLen - 1 - i, q[q0 + j].pointer == n16.children[n16.childrenLen - 1 - j].pointer && q[q0 + j].tag == n16.children[n16.childrenLen - 1 - j].tag))
 //@     exit_ensures[every_child_pushed] len(q) == q0 + n16.childrenLen
 //@   loop 4 (i)
 //@     ghost q0 = len(q)
 //@     invariant stacksOK(q, depths) && 0 - 1 <= i && i <= 255
 //@     invariant[count] len(q) == q0 + cntNZ(n48.keys, 256) - cntNZ(n48.keys, i + 1)
+//@     invariant[child_depth] forallp(j, 0, 256, implies(j < len(depths) - q0, depths[q0 + j] == depth + as(node, n.pointer).prefixLen + 1))
 //@     invariant[order] forallp(x, 0, 256, implies(x > i && n48.keys[x] != 0, q[q0 + cntNZ(n48.keys, 256) - cntNZ(n48.keys, x + 1)].pointer == n48.children[n48.keys[x] - 1].pointer))
 //@     exit_ensures[every_child_pushed] len(q) == q0 + cntNZ(n48.keys, 256)
 //@   loop 5 (i)
 //@     ghost q0 = len(q)
 //@     invariant stacksOK(q, depths) && 0 - 1 <= i && i <= 255
 //@     invariant[count] len(q) == q0 + cntP(n256.children, 256) - cntP(n256.children, i + 1)
+//@     invariant[child_depth] forallp(j, 0, 256, implies(j < len(depths) - q0, depths[q0 + j] == depth + as(node, n.pointer).prefixLen + 1))
 //@     invariant[order] forallp(x, 0, 256, implies(x > i && n256.children[x].pointer != nil, q[q0 + cntP(n256.children, 256) - cntP(n256.children, x + 1)].pointer == n256.children[x].pointer))
 //@     exit_ensures[every_child_pushed] len(q) == q0 + cntP(n256.children, 256)
 
@@ -1187,24 +1191,28 @@ func first(a, _ []byte) []byte { return a }
 //@     ghost q0 = len(q)
 //@     invariant stacksOK(q, depths) && 0 - 1 <= i && i < n4.childrenLen
 //@     invariant[count] len(q) == q0 + (n4.childrenLen - 1 - i)
+//@     invariant[child_depth] forall(j, 0, 4, implies(j < len(depths) - q0, depths[q0 + j] == depth + as(node, n.pointer).prefixLen + 1))
 //@     invariant[order] forall(j, 0, 4, implies(j < n4.childrenLen - 1 - i, q[q0 + j].pointer == n4.children[n4.childrenLen - 1 - j].pointer && q[q0 + j].tag == n4.children[n4.childrenLen - 1 - j].tag))
 //@     exit_ensures[every_child_pushed] len(q) == q0 + n4.childrenLen
 //@   loop 3 (i)
 //@     ghost q0 = len(q)
 //@     invariant stacksOK(q, depths) && 0 - 1 <= i && i < n16.childrenLen
 //@     invariant[count] len(q) == q0 + (n16.childrenLen - 1 - i)
+//@     invariant[child_depth] forall(j, 0, 16, implies(j < len(depths) - q0, depths[q0 + j] == depth + as(node, n.pointer).prefixLen + 1))
 //@     invariant[order] forall(j, 0, 16, implies(j < n16.childrenLen - 1 - i, q[q0 + j].pointer == n16.children[n16.childrenLen - 1 - j].pointer && q[q0 + j].tag == n16.children[n16.childrenLen - 1 - j].tag))
 //@     exit_ensures[every_child_pushed] len(q) == q0 + n16.childrenLen
 //@   loop 4 (i)
 //@     ghost q0 = len(q)
 //@     invariant stacksOK(q, depths) && 0 - 1 <= i && i <= 255
 //@     invariant[count] len(q) == q0 + cntNZ(n48.keys, 256) - cntNZ(n48.keys, i + 1)
+//@     invariant[child_depth] forallp(j, 0, 256, implies(j < len(depths) - q0, depths[q0 + j] == depth + as(node, n.pointer).prefixLen + 1))
 //@     invariant[order] forallp(x, 0, 256, implies(x > i && n48.keys[x] != 0, q[q0 + cntNZ(n48.keys, 256) - cntNZ(n48.keys, x + 1)].pointer == n48.children[n48.keys[x] - 1].pointer))
 //@     exit_ensures[every_child_pushed] len(q) == q0 + cntNZ(n48.keys, 256)
 //@   loop 5 (i)
 //@     ghost q0 = len(q)
 //@     invariant stacksOK(q, depths) && 0 - 1 <= i && i <= 255
 //@     invariant[count] len(q) == q0 + cntP(n256.children, 256) - cntP(n256.children, i + 1)
+//@     invariant[child_depth] forallp(j, 0, 256, implies(j < len(depths) - q0, depths[q0 + j] == depth + as(node, n.pointer).prefixLen + 1))
 //@     invariant[order] forallp(x, 0, 256, implies(x > i && n256.children[x].pointer != nil, q[q0 + cntP(n256.children, 256) - cntP(n256.children, x + 1)].pointer == n256.children[x].pointer))
 //@     exit_ensures[every_child_pushed] len(q) == q0 + cntP(n256.children, 256)
 
@@ -1224,24 +1232,28 @@ func first(a, _ []byte) []byte { return a }
 //@     ghost q0 = len(q)
 //@     invariant stacksOK(q, depths) && 0 - 1 <= i && i < n4.childrenLen
 //@     invariant[count] len(q) == q0 + (n4.childrenLen - 1 - i)
+//@     invariant[child_depth] forall(j, 0, 4, implies(j < len(depths) - q0, depths[q0 + j] == depth + as(node, n.pointer).prefixLen + 1))
 //@     invariant[order] forall(j, 0, 4, implies(j < n4.childrenLen - 1 - i, q[q0 + j].pointer == n4.children[n4.childrenLen - 1 - j].pointer && q[q0 + j].tag == n4.children[n4.childrenLen - 1 - j].tag))
 //@     exit_ensures[every_child_pushed] len(q) == q0 + n4.childrenLen
 //@   loop 3 (i)
 //@     ghost q0 = len(q)
 //@     invariant stacksOK(q, depths) && 0 - 1 <= i && i < n16.childrenLen
 //@     invariant[count] len(q) == q0 + (n16.childrenLen - 1 - i)
+//@     invariant[child_depth] forall(j, 0, 16, implies(j < len(depths) - q0, depths[q0 + j] == depth + as(node, n.pointer).prefixLen + 1))
 //@     invariant[order] forall(j, 0, 16, implies(j < n16.childrenLen - 1 - i, q[q0 + j].pointer == n16.children[n16.childrenLen - 1 - j].pointer && q[q0 + j].tag == n16.children[n16.childrenLen - 1 - j].tag))
 //@     exit_ensures[every_child_pushed] len(q) == q0 + n16.childrenLen
 //@   loop 4 (i)
 //@     ghost q0 = len(q)
 //@     invariant stacksOK(q, depths) && 0 - 1 <= i && i <= 255
 //@     invariant[count] len(q) == q0 + cntNZ(n48.keys, 256) - cntNZ(n48.keys, i + 1)
+//@     invariant[child_depth] forallp(j, 0, 256, implies(j < len(depths) - q0, depths[q0 + j] == depth + as(node, n.pointer).prefixLen + 1))
 //@     invariant[order] forallp(x, 0, 256, implies(x > i && n48.keys[x] != 0, q[q0 + cntNZ(n48.keys, 256) - cntNZ(n48.keys, x + 1)].pointer == n48.children[n48.keys[x] - 1].pointer))
 //@     exit_ensures[every_child_pushed] len(q) == q0 + cntNZ(n48.keys, 256)
 //@   loop 5 (i)
 //@     ghost q0 = len(q)
 //@     invariant stacksOK(q, depths) && 0 - 1 <= i && i <= 255
 //@     invariant[count] len(q) == q0 + cntP(n256.children, 256) - cntP(n256.children, i + 1)
+//@     invariant[child_depth] forallp(j, 0, 256, implies(j < len(depths) - q0, depths[q0 + j] == depth + as(node, n.pointer).prefixLen + 1))
 //@     invariant[order] forallp(x, 0, 256, implies(x > i && n256.children[x].pointer != nil, q[q0 + cntP(n256.children, 256) - cntP(n256.children, x + 1)].pointer == n256.children[x].pointer))
 //@     exit_ensures[every_child_pushed] len(q) == q0 + cntP(n256.children, 256)
 
@@ -1262,24 +1274,28 @@ func first(a, _ []byte) []byte { return a }
 //@     ghost q0 = len(q)
 //@     invariant stacksOK(q, depths) && 0 - 1 <= i && i < n4.childrenLen
 //@     invariant[count] len(q) == q0 + (n4.childrenLen - 1 - i)
+//@     invariant[child_depth] forall(j, 0, 4, implies(j < len(depths) - q0, depths[q0 + j] == depth + as(node, n.pointer).prefixLen + 1))
 //@     invariant[order] forall(j, 0, 4, implies(j < n4.childrenLen - 1 - i, q[q0 + j].pointer == n4.children[n4.childrenLen - 1 - j].pointer && q[q0 + j].tag == n4.children[n4.childrenLen - 1 - j].tag))
 //@     exit_ensures[every_child_pushed] len(q) == q0 + n4.childrenLen
 //@   loop 3 (i)
 //@     ghost q0 = len(q)
 //@     invariant stacksOK(q, depths) && 0 - 1 <= i && i < n16.childrenLen
 //@     invariant[count] len(q) == q0 + (n16.childrenLen - 1 - i)
+//@     invariant[child_depth] forall(j, 0, 16, implies(j < len(depths) - q0, depths[q0 + j] == depth + as(node, n.pointer).prefixLen + 1))
 //@     invariant[order] forall(j, 0, 16, implies(j < n16.childrenLen - 1 - i, q[q0 + j].pointer == n16.children[n16.childrenLen - 1 - j].pointer && q[q0 + j].tag == n16.children[n16.childrenLen - 1 - j].tag))
 //@     exit_ensures[every_child_pushed] len(q) == q0 + n16.childrenLen
 //@   loop 4 (i)
 //@     ghost q0 = len(q)
 //@     invariant stacksOK(q, depths) && 0 - 1 <= i && i <= 255
 //@     invariant[count] len(q) == q0 + cntNZ(n48.keys, 256) - cntNZ(n48.keys, i + 1)
+//@     invariant[child_depth] forallp(j, 0, 256, implies(j < len(depths) - q0, depths[q0 + j] == depth + as(node, n.pointer).prefixLen + 1))
 //@     invariant[order] forallp(x, 0, 256, implies(x > i && n48.keys[x] != 0, q[q0 + cntNZ(n48.keys, 256) - cntNZ(n48.keys, x + 1)].pointer == n48.children[n48.keys[x] - 1].pointer))
 //@     exit_ensures[every_child_pushed] len(q) == q0 + cntNZ(n48.keys, 256)
 //@   loop 5 (i)
 //@     ghost q0 = len(q)
 //@     invariant stacksOK(q, depths) && 0 - 1 <= i && i <= 255
 //@     invariant[count] len(q) == q0 + cntP(n256.children, 256) - cntP(n256.children, i + 1)
+//@     invariant[child_depth] forallp(j, 0, 256, implies(j < len(depths) - q0, depths[q0 + j] == depth + as(node, n.pointer).prefixLen + 1))
 //@     invariant[order] forallp(x, 0, 256, implies(x > i && n256.children[x].pointer != nil, q[q0 + cntP(n256.children, 256) - cntP(n256.children, x + 1)].pointer == n256.children[x].pointer))
 //@     exit_ensures[every_child_pushed] len(q) == q0 + cntP(n256.children, 256)
 
